@@ -577,6 +577,52 @@ func (c *Ctx) c17KeysetRefresh() {
 	if n == 0 {
 		R.Check("R4", fk, "active keyset updates found", c.P.Pos(f.Pos()), false, "the refresh updates the active keyset of the mint entry", "no store to activeKeyset")
 	}
+	// a rotation noticed by the wallet stores the PREVIOUS active keyset as inactive: a keyset left active in storage
+	// next to the new one is dropped at the next start (one active keyset per mint is loaded) together with the
+	// proofs the wallet still holds on it. The record stored inactive is the old in-memory entry.
+	var deact ssa.CallInstruction
+	for _, cc := range c.opCallsOfWalletDB(f, "SaveKeyset") {
+		d := c.P.Describe(cc.CI)
+		if len(d.Args) == 0 {
+			continue
+		}
+		content := cc.O.ContentAt(d.Args[0], cc.CI)
+		act, id := project(content, "Active"), project(content, "Id")
+		if isConst(act, "false") && strings.HasSuffix(id.String(), ".activeKeyset.Id") {
+			deact = cc.CI
+		}
+	}
+	R.Check("R4", fk, "rotation stores the previous active keyset as inactive", c.P.Pos(f.Pos()), deact != nil,
+		"some SaveKeyset call stores the mint entry's previous active keyset with Active = false", "no SaveKeyset whose record is the old entry (Id = <entry>.activeKeyset.Id) with Active = false")
+	if deact != nil {
+		// every success return that follows the in-memory deactivation passes that save
+		saved := errNilOf(deact, "previous keyset stored inactive")
+		saved.Via = func(g *ssa.Function) bool { return c.P.IsNewFunc(g) }
+		acc := o.AcceptEdges(saved)
+		cutS := NewCut()
+		for e := range acc {
+			cutS.Edges[e] = true
+		}
+		okS, whyS, nM := true, "", 0
+		for _, b := range f.Blocks {
+			for _, in := range b.Instrs {
+				mu, ok := in.(*ssa.MapUpdate)
+				if !ok || !strings.HasSuffix(o.Of(mu.Map).String(), ".inactiveKeysets") {
+					continue
+				}
+				nM++
+				for _, r := range o.SuccessReturns() {
+					if reach, path := o.ReachAvoiding(mu, r, cutS); reach {
+						okS = false
+						whyS = "success return reachable after moving the old keyset to the inactive entries without storing it inactive: " + path
+					}
+				}
+			}
+		}
+		if nM > 0 {
+			R.Check("R4", fk, "in-memory deactivation => stored before success", c.P.InstrPos(deact), okS, "after the old keyset became an inactive entry in memory the operation succeeds only when it was stored inactive", whyS)
+		}
+	}
 }
 
 // ---------------------------------------------------------------------------------------------
@@ -984,14 +1030,17 @@ func (c *Ctx) c18KeysetEntriesCarryFee() {
 	isZeroFee := func(e *Ex) bool {
 		// the field of a zero-valued struct: a composite literal that does not set it (an explicit 0, or a
 		// value that may be 0, is a legitimate fee)
-		return e.K == "zero" || (e.K == "field" && e.S == "InputFeePpk" && (e.Args[0].K == "zero" || isConst(e.Args[0], "nil")))
+		// ... and so is a constant: the fee of a keyset is always read from somewhere (the mint's answer, storage,
+		// the entry it replaces); a constant reaches an entry only through a variable that was never assigned on
+		// that path
+		return e.K == "zero" || e.K == "const" || (e.K == "field" && e.S == "InputFeePpk" && (e.Args[0].K == "zero" || isConst(e.Args[0], "nil")))
 	}
 	check := func(f *ssa.Function, o *Origins, in ssa.Instruction, v *Ex, what string) {
 		fee := project(v, "InputFeePpk")
 		ok, why := true, ""
 		for _, a := range fee.Alts() {
 			if isZeroFee(a) {
-				ok, why = false, "the entry is written with InputFeePpk = "+short(a.String(), 80)+" (the literal does not set it)"
+				ok, why = false, "the entry is written with InputFeePpk = "+short(a.String(), 80)+" (not set by the literal, or a constant instead of the keyset's own fee)"
 			}
 		}
 		R.Check("R4", c.P.FuncKey(f), what, c.P.InstrPos(in), ok, "the keyset entry kept in memory carries the keyset's input fee", why)
@@ -1011,14 +1060,14 @@ func (c *Ctx) c18KeysetEntriesCarryFee() {
 						continue
 					}
 					n++
-					check(f, o, in, o.Of(x.Value), "inactive keyset entry carries the fee")
+					check(f, o, in, c.OfAt(o, in, x.Value), "inactive keyset entry carries the fee")
 				case *ssa.Store:
 					fa, ok := x.Addr.(*ssa.FieldAddr)
 					if !ok || fieldName(fa) != "activeKeyset" {
 						continue
 					}
 					n++
-					check(f, o, in, o.Of(x.Val), "active keyset entry carries the fee")
+					check(f, o, in, c.OfAt(o, in, x.Val), "active keyset entry carries the fee")
 				}
 			}
 		}
